@@ -64,6 +64,14 @@ def gen(ctx):
                     if func == 'archive' and occ != 'file':
                         continue
                     C.append(dict(func=func, occupant=occ, overwrite=ow, foreign=foreign, aspath=r.random() < 0.4))
+    # creation calls that FAIL after the overwrite gate: foreign content must still survive
+    for func in ('asraggedarray_fail_empty', 'asraggedarray_fail_atom', 'asraggedarray_fail_gen', 'asraggedarray_fail_type',
+                 'asarray_fail_gen', 'asarray_fail_type'):
+        for occ in ('Array', 'RaggedArray', 'plaindir'):
+            foreign = [dict(kind='file', name='keep.dat', where='')]
+            if occ == 'RaggedArray':
+                foreign.append(dict(kind='file', name='notes.txt', where='values'))
+            C.append(dict(func=func, occupant=occ, overwrite=True, foreign=foreign, aspath=False, fails=True))
     return D, C
 
 
@@ -136,11 +144,15 @@ def run(ctx):
                          observed=dict(res=ob['res'], unchanged=ob['after'] == ob['before']))
         else:
             for sp in case['foreign']:
-                p = sp['name']
+                p = (sp['where'] + '/' if sp.get('where') else '') + sp['name']
                 if ob['after'].get(p) != ob['before'].get(p):
                     ctx.fail('overwrite-removed-foreign-file', key, observed=dict(res=ob['res'], after=sorted(ob['after'])))
             if case['occupant'] == 'file' and case['func'] != 'archive' and (ob['res'][0] == 'ok' or ob['after'] != ob['before']):
                 ctx.fail('plain-file-replaced-by-array', key, observed=ob['res'])
+        if case.get('fails'):
+            if ob['res'][0] == 'ok':
+                ctx.fail('failing-creation-succeeded', key, observed=ob['res'])
+            continue
         if case['func'] != 'archive':
             base = '/B/t'
             node = {'file': 'FFile [1]', 'plaindir': 'FDir'}.get(case['occupant'], 'FDir')
